@@ -45,6 +45,11 @@ func offsetIn(buf, v []byte) int {
 // c02Decode decodes buf into fresh receivers and checks the single-decode clauses. It
 // returns the outcome class and whether Packet.Unmarshal accepted.
 func c02Decode(c *mc.Ctx, buf []byte) (string, bool) {
+	return c02DecodeCap(c, clone(buf)) // exactly as much capacity as length
+}
+
+// c02DecodeCap decodes buf with whatever capacity the caller gave it.
+func c02DecodeCap(c *mc.Ctx, buf []byte) (string, bool) {
 	orig := clone(buf)
 	var h rtp.Header
 	n, herr := h.Unmarshal(buf)
@@ -306,7 +311,7 @@ func c02HeaderAtEnd(c *mc.Ctx) {
 	if c.Verbose() {
 		c.Notef("two-byte form %v, block of %d words ending in the header of an element of %d bytes, %d bytes behind the block, spare capacity %v: %s", twoByte, words, announced, tail, spare, hx(buf))
 	}
-	cls, ok := c02Decode(c, buf)
+	cls, ok := c02DecodeCap(c, buf)
 	if ok {
 		c.NonTrivial()
 	}
